@@ -24,6 +24,7 @@ REQUIRED = {"quick": {"grad_calls": 1500, "coords_compared": 4000, "dirs_compare
                       "cmp:MMDGEMINI": 200, "cmp:WassersteinGEMINI": 200},
             "thorough": {"grad_calls": 20000, "coords_compared": 100000, "insitu_calls_checked": 1000}}
 SHARD_TIMEOUT = {"quick": 900, "thorough": 5400}
+REPOTESTS = {"thorough": 16}      # the repository's own test-suite, in 16 parts, under the same monitors
 
 
 def cases(tier, seed):
